@@ -4,7 +4,9 @@ C15.ID    accounting identity as a term normal form: succeeded + failed + excess
           for every Success/PartialFailure constructed by the battery and PV managers.
 C15.FAIL  failure totality on the exception-aware CFG: every way of leaving task.result()
           through an exception (Exception family or CancelledError) is caught and reaches the
-          failed-power and failed-set updates exactly once; the success path reaches neither.
+          failed-power and failed-set updates exactly once; the success path reaches neither; no
+          normal path through an iteration of the result loop goes round the read of its own task's
+          outcome, and the loop is never left (break / return) while tasks remain.
 C15.SETS  succeeded/failed component sets are complementary by construction.
 C15.ALL   one set_power per entry of the distribution; timed-out calls are cancelled and
           awaited before results are read.
@@ -429,6 +431,32 @@ def _cancel_excluded(cfg: CFG, first: int, r: int) -> bool:
     return first != r and cfg.path(first, [r], edge_ok=edge_ok) is None
 
 
+def _loop_leavers(loop: ast.AST) -> list[ast.AST]:
+    """`break` statements that end this loop and `return` statements inside its body (nested loops keep their own
+    breaks, nested functions their own returns)."""
+    out: list[ast.AST] = []
+
+    def go(stmts: list[ast.stmt], own: bool) -> None:
+        for st in stmts:
+            if isinstance(st, (ast.FunctionDef, ast.AsyncFunctionDef, ast.ClassDef, ast.Lambda)):
+                continue
+            if isinstance(st, ast.Return) or (own and isinstance(st, ast.Break)):
+                out.append(st)
+            inner = isinstance(st, (ast.For, ast.AsyncFor, ast.While))
+            for fld in ("body", "orelse", "finalbody"):
+                sub = getattr(st, fld, None)
+                if isinstance(sub, list) and sub and isinstance(sub[0], ast.stmt):
+                    # the `else:` of a nested loop runs after it ended: a break there belongs to this loop again
+                    go(sub, own and not (inner and fld == "body"))
+            for hd in getattr(st, "handlers", []) or []:
+                go(hd.body, own)
+            for case in getattr(st, "cases", []) or []:
+                go(case.body, own)
+
+    go(list(getattr(loop, "body", [])), True)
+    return out
+
+
 def booking_nodes(cfg: CFG, body: set[int], key_var: str, fp_name: str, fs_name: str
                   ) -> tuple[list[int], list[int], list[int], set[str]]:
     """Inside the result loop: (nodes `fp += X[key]` in any spelling, nodes growing the failed set,
@@ -562,6 +590,37 @@ def check_fail(run: Run, prog: Program, roles: BatteryRoles, battery_only: bool 
                       "call booked as failed is not in the failed power (it is reported as succeeded), or vice versa",
                       node=cfg.nodes[a_nodes[0]].ast, file=fn.file, path=cfg.describe_path(wit),
                       instance=f"{fn.qual}: {a_what} updated => {b_what} updated in the same iteration")
+        # 3c. every iteration reads the outcome of its OWN call: the bookkeeping above is decided from the
+        #     result() node onwards, so it only covers the calls whose outcome is looked at.  No normal path
+        #     through one iteration (first statement of the body -> next iteration / end of the function)
+        #     may go round every read of the current task (`.result()`, or a `.cancelled()` / `.exception()`
+        #     probe of that same task, whose booking 3b pairs).
+        recv = u(node_calls(cfg, r, _is_result_call)[0].func.value)  # type: ignore[attr-defined]
+        own_task = {recv, f"{tasks_map}[{key_var}]"}
+        probes = {r} | {x for x in nodes_with_call(cfg, lambda c: isinstance(c.func, ast.Attribute)
+                                                   and c.func.attr in ("cancelled", "exception") and not c.args
+                                                   and not c.keywords and u(c.func.value) in own_task) if x in body}
+        wit = None
+        if first_body[0] not in probes:
+            wit = cfg.path_flags(first_body[0], [h.id, cfg.exit], flags, avoid=probes, edge_ok=normal_edge)
+        run.check(wit is None, "C15.FAIL", fn.qual, "every iteration reads the outcome of its call",
+                  f"an iteration of the result loop can finish without reading the outcome of its own set_power call "
+                  f"(`{recv}.result()` is bypassed): if that call was rejected, errored or timed out its set-point is "
+                  "never added to the failed power and is reported as succeeded.  No guard may skip an entry of the "
+                  "task map -- not a test on the component (already in the failed set / de-duplication of batteries "
+                  "behind several inverters / membership), not a test on the set-point (zero, sign), not a `continue` or "
+                  "`break` ahead of the try",
+                  node=next((cfg.nodes[x].ast for x, _l in reversed(wit or []) if cfg.nodes[x].kind == "test"), rn.ast),
+                  file=fn.file, path=cfg.describe_path(wit),
+                  instance=f"{fn.qual}: no iteration of the result loop bypasses the read of its task's outcome")
+        # 3d. ... and the loop inspects EVERY task: it is not left (break / return) while entries remain
+        leave = _loop_leavers(h.ast)
+        run.check(not leave, "C15.FAIL", fn.qual, "the result loop runs over every task",
+                  "the result loop can be left (`break` / `return`) before the remaining tasks are inspected: the calls "
+                  "after the first one that stops the loop are neither booked as failed nor named in a result set "
+                  "(stop-at-first-failure, early return once something failed)",
+                  node=leave[0] if leave else rn.ast, file=fn.file,
+                  instance=f"{fn.qual}: the result loop is never left before the last task")
         # 4. what is added is the allocation of *this* component from the sent allocations
         s = cfg.nodes[fp_nodes[0]].ast
         alloc_name = sorted(allocs)[0]
@@ -1003,6 +1062,16 @@ CONTROLS = [
      "            failed = True\n            try:\n",
      "            if aws.cancelled():\n                failed_batteries.update(battery_ids)\n                continue\n"
      "            failed = True\n            try:\n", "C15.FAIL"),
+    ("zero set-points skipped before their outcome is read", "microgrid._power_distributing._component_managers._battery_manager",
+     "            failed = True\n            try:\n                aws.result()\n",
+     "            if distribution[inverter_id] == 0.0:\n                continue\n"
+     "            failed = True\n            try:\n                aws.result()\n", "C15.FAIL"),
+    ("PV result loop stops at the first failed call",
+     "microgrid._power_distributing._component_managers._pv_inverter_manager._pv_inverter_manager",
+     "            failed_components.add(component_id)\n            failed_power += allocations[component_id]\n\n"
+     "        if failed_components:\n",
+     "            failed_components.add(component_id)\n            failed_power += allocations[component_id]\n"
+     "            break\n\n        if failed_components:\n", "C15.FAIL"),
     ("PV allocation not taken off the excess ledger",
      "microgrid._power_distributing._component_managers._pv_inverter_manager._pv_inverter_manager",
      "            allocations[inv_id] = allocated_power\n            remaining_power -= allocated_power\n",
@@ -1195,7 +1264,8 @@ def check(run: Run, prog: Program, tier: str) -> str:
     run.rule("C15.ID", "succeeded + failed + excess normalises to request.power for every "
              "Success/PartialFailure built by the battery and PV managers")
     run.rule("C15.FAIL", "every exceptional exit of task.result() is caught and books the failed "
-             "power and failed components exactly once; the success path books neither")
+             "power and failed components exactly once; the success path books neither; every iteration of "
+             "the result loop reads the outcome of its own call and the loop runs over every task")
     run.rule("C15.SETS", "succeeded and failed component sets are complementary by construction")
     run.rule("C15.ALL", "one set_power per allocation entry; timed-out calls are cancelled and "
              "awaited before results are read; parsed map == sent map")
